@@ -1,3 +1,4 @@
 import MoreExec.Base.Sys
 import MoreExec.Model.Timeout
 import MoreExec.Props.C09
+import MoreExec.Props.C14
